@@ -62,13 +62,17 @@ def model_arg(model, rng=None):
     return rng.choice(names + [member, member])
 
 
-def make_drawing(model, word, via_constructor=False, window=None, rng=None, **kw):
+def make_drawing(model, word, via_constructor=False, window=None, rng=None, defaults=None, force_default=False, **kw):
     """A HyperbolicDrawing whose transformation is the word (add_transform / precompose_transform); a window other than
     the default is given to the constructor as xlim / ylim."""
     D = drawtools()
     w = list(word)
     if window is not None and list(window) != DEFAULT_WINDOW:
         kw = dict(kw, xlim=(float(window[0]), float(window[1])), ylim=(-0.1, float(window[2])))
+    if defaults and model == defaults["model"] and not w and not kw and rng is not None and (force_default or rng.random() < 0.5):
+        d = D.HyperbolicDrawing()                          # every argument left to its default
+        d._verif_default = True
+        return d
     model = model_arg(model, rng)
     if via_constructor and w:
         d = D.HyperbolicDrawing(model=model, transform=hc.lib_atom(w[0][1], 2), **kw)
